@@ -644,9 +644,14 @@ class Gen:
         self.f("stmt:const-iota")
         i2 = ind + "\t"
         a, b, c = self.fresh("cA"), self.fresh("cB"), self.fresh("cC")
-        return [ind + "const (", i2 + "%s = iota*2 + 1" % a, i2 + b, i2 + c, ind + ")",
-                ind + "var (", i2 + "%sv, %sw int = %s, %s" % (a, a, b, c), i2 + "%ss = \"s\"" % a, ind + ")",
-                ind + "fmt.Println(%s, %s, %s, %sv+%sw, %ss)" % (a, b, c, a, a, a)]
+        blanks = ["_"] * self.r.below(3)
+        typed = self.pick(["", " int", " uint8"])
+        arr = self.fresh("ca")
+        return ([ind + "const (", i2 + "%s%s = iota*2 + 1" % (a, typed)] + [i2 + x for x in blanks] + [i2 + b] +
+                [i2 + x for x in ["_"] * self.r.below(2)] + [i2 + c, ind + ")",
+                ind + "var (", i2 + "%sv, %sw int = int(%s), int(%s)" % (a, a, b, c), i2 + "%ss = \"s\"" % a, ind + ")",
+                ind + "var %s [%s]int" % (arr, c), ind + "%s[%s-1] = int(%s) << %s" % (arr, c, b, self.pick(["1", "2"])),
+                ind + "fmt.Println(%s, %s, %s, %sv+%sw, %ss, len(%s), %s[len(%s)-1], [...]int{%s: 1})" % (a, b, c, a, a, a, arr, arr, arr, b)])
 
     def t_range_forms(self, sc, depth, ind):
         self.f("stmt:range-forms")
@@ -919,6 +924,123 @@ def switch_matrix_program():
                     specs.append((n, ncase, [(kind, v, bool(ci < k and mask >> ci & 1)) for ci, (kind, v) in enumerate(clauses)]))
                     calls.append("\tfor x := 0; x <= %d; x++ {\n\t\tfmt.Println(%d, x, sw%d(x))\n\t}" % (ncase, n, n))
     return "package main\n\nimport \"fmt\"\n\n" + "\n\n".join(funcs) + "\n\nfunc main() {\n" + "\n".join(calls) + "\n}\n", specs
+
+
+def const_iota_program():
+    """const groups with iota: bare `_` lines, skipped lines, explicit restarts, typed and untyped, several names
+    per line, expressions of iota; the constants are used where a compiler folds them: array lengths, shifts,
+    case labels, composite-literal indices, conversions; len() and the values are printed"""
+    return '''package main
+
+import "fmt"
+
+type Perm uint8
+
+type Level int
+
+const (
+	Read Perm = 1 << iota
+	Write
+	_
+	Exec
+	_
+	_
+	Admin
+	numPerm = iota
+)
+
+const (
+	A0 = iota
+	_
+	A2
+	_
+	_
+	A5
+	A6 = iota * 10
+	A7
+)
+
+const (
+	_ = iota
+	KB = 1 << (10 * iota)
+	MB
+	_
+	TB
+)
+
+const (
+	Low Level = iota + 1
+	_
+	High
+	_
+	Top
+	last = iota
+)
+
+const (
+	x0, y0 = iota, iota * 2
+	_, _
+	x2, y2
+	_, y3
+	x4, _
+)
+
+const (
+	s0 = "s"
+	_
+	s2
+	i3 = iota
+)
+
+const single = iota
+
+func name(p Perm) string {
+	switch p {
+	case Read:
+		return "read"
+	case Write:
+		return "write"
+	case Exec:
+		return "exec"
+	case Admin:
+		return "admin"
+	}
+	return "?"
+}
+
+func main() {
+	var perms [numPerm]bool
+	var buf [Admin]byte
+	var lv [Top]string
+	var grid [A2][A5]int
+	var big [TB >> 38]int
+	var t5 [last]int
+	fmt.Println(len(perms), len(buf), len(lv), len(grid), len(grid[0]), len(big), len(t5))
+	fmt.Println(Read, Write, Exec, Admin, numPerm, A0, A2, A5, A6, A7, KB, MB, TB>>30, Low, High, Top, last)
+	fmt.Println(x0, y0, x2, y2, y3, x4, s0, s2, i3, single)
+	names := [...]string{A0: "zero", A2: "two", A5: "five"}
+	idx := []int{A5: 1, A2: 2}
+	m := map[Perm]string{Read: "r", Exec: "x", Admin: "a"}
+	fmt.Println(len(names), names, len(idx), idx, len(m), m[Exec])
+	for p := Read; p <= Admin; p <<= 1 {
+		fmt.Println(p, name(p), 1<<A2, A5<<1, uint8(Admin)>>A2)
+	}
+	perms[numPerm-1] = true
+	buf[Admin-1] = 7
+	lv[Top-1] = "top"
+	fmt.Println(perms, buf[Admin-1], lv)
+	type local int
+	const (
+		l0 local = iota * iota
+		_
+		l2
+		_
+		l4
+	)
+	var la [l4]int
+	fmt.Println(l0, l2, l4, len(la))
+}
+'''
 
 
 def struct_literal_program():
